@@ -56,6 +56,7 @@ type Ctx struct {
 	Prog    *ssa.Program
 	SSA     map[string]*ssa.Package
 	cg      *callgraph.Graph
+	chaCG   *callgraph.Graph
 	allFns  map[*ssa.Function]bool
 
 	Obl      []*Obligation
@@ -150,7 +151,8 @@ func (c *Ctx) callGraph() *callgraph.Graph {
 	}
 	c.buildSSA()
 	c.allFns = ssautil.AllFunctions(c.Prog)
-	c.cg = vta.CallGraph(c.allFns, cha.CallGraph(c.Prog))
+	c.chaCG = cha.CallGraph(c.Prog)
+	c.cg = vta.CallGraph(c.allFns, c.chaCG)
 	return c.cg
 }
 
